@@ -529,10 +529,20 @@ def gen_c15(seed, shard, n_hist, tier):
         h.add("V")
         h.add("Q")
         h.add("L")
-        # "a later safe call" includes the mutators: removals and insertions aimed at the damaged region and
-        # elsewhere (merges / borrows / splits next to a freed, emptied or mis-linked node). The model does not
-        # answer for mutators on raw heaps (UNSUPPORTED ends the comparison of the history); the assertion
-        # hooks in the unchecked accessors judge the implementation.
+        # "a later safe call" includes every other public entry point of the map ...
+        z = rng.randrange(U)
+        entry = [f"TI {z} {h.sid} {h.sid * 10}", f"TR {rng.randrange(U)}", f"BI {z}:{h.sid + 1}:5 {rng.randrange(U)}:{h.sid + 2}:6"]
+        if not unsorted_possible:      # lookups by key are compared only on nodes that are still sorted (see above)
+            entry += [f"GM {z} {rng.randrange(U)}", f"TG {z}", f"GI {z}", f"D {z} 7", f"C {z}"]
+        for line in rng.sample(entry, 3):
+            h.add(line)
+        h.sid += 3
+        # ... and the mutators: removals and insertions aimed at the damaged region and elsewhere (merges / borrows /
+        # splits next to a freed, emptied or mis-linked node). The model does not answer for mutators on raw heaps
+        # (UNSUPPORTED ends the comparison of the history); the assertion hooks in the unchecked accessors judge the
+        # implementation. A split next to a freed leaf can close the leaf chain into a cycle (the new leaf reuses the
+        # slot its left neighbour still points to), after which every unbounded walk (validators, slice(), last())
+        # legitimately never ends: only bounded observations follow the mutators.
         for _ in range(rng.choice([2, 4, 6])):
             r = rng.random()
             z = rng.choice([p * 2, p * 2 + 1, p * 2 + 2, p * 2 + 3, rng.randrange(U), rng.randrange(U)]) if r < 0.8 else rng.randrange(-3, U + 3)
@@ -541,7 +551,12 @@ def gen_c15(seed, shard, n_hist, tier):
             else:
                 h.add(f"I {z} {h.sid} {h.sid * 10}")
                 h.sid += 1
-        h.add("IT items,fast 0:50 1:50")
+        h.add("IT items,fast,keys,values 0:40 1:40 2:40 3:40")
+        z = rng.randrange(U)
+        for line in rng.sample([f"M {z} {h.sid * 10 + 1}", f"RI {rng.randrange(U)}", f"GM {z} {rng.randrange(U)}", f"TG {z}", f"GI {z}", f"D {z} 7", f"G {z}"], 3):
+            h.add(line)
+        h.add("X")
+        h.add("SL")
         out.append(h)
     return out
 
